@@ -217,6 +217,16 @@ def gen_spec(rng, max_nodes=25, names="collide", hostile_outputs=False, dup_payl
             others = [o for o in par["outputs"] if o != inputs[i][1]]
             inputs[i] = (par["name"], rng.choice(others))
             outs, payload = list(m["outputs"]), m["payload"]
+        elif rng.random() < clones:
+            # exact duplicates declared differently: same payload, outputs and inputs as an earlier node, the inputs given in
+            # another keyword order -- the pairs a de-duplication must merge
+            multi = [m for m in spec if len(m["inputs"]) >= 2]
+            if multi:
+                m = rng.choice(multi)
+                items = list(m["inputs"].items())
+                rng.shuffle(items)
+                inputs = dict(items)
+                outs, payload = list(m["outputs"]), m["payload"]
         spec.append({"name": nm, "outputs": outs, "payload": payload, "inputs": inputs})
     for t in terminal_names(spec):
         node = next(x for x in spec if x["name"] == t)
